@@ -32,7 +32,7 @@ def one(sid):
         demo = rc
         det = {}
         for c in checks:
-            rc, out = run("./check %s --tier quick" % c, cwd=ROOT, env=dict(G3DVC_REPO=scr, G3DVC_NPROC=str(max(4, 16 // jobs))))
+            rc, out = run("./check %s --tier quick" % c, cwd=ROOT, env=dict(G3DVC_REPO=scr, G3DVC_NPROC=str(max(4, 16 // jobs)), G3DVC_EVIDENCE_DIR=os.path.join(ROOT, "work", "evidence-of-changed-trees")))
             det[c] = (rc, len([l for l in out.splitlines() if l.startswith("VIOLATION")]))
         print(sid, "demo", demo, det, flush=True)
         return (sid, prop, "demo exit %d" % demo, det)
